@@ -283,7 +283,7 @@ class Prop(SeqProp):
             out.append({"kind": "odd-elements", "seed": rng.randrange(1 << 30)})
         # Batcher iterated (for / list / zip) and indexed, over sequences that are not lists: str, bytes, range, tuples of them
         for _ in range(60 if tier == "quick" else 600):
-            out.append({"kind": "batcher-sequences", "n": rng.randint(0, 11), "b": rng.randint(1, 5), "type": rng.randrange(5)})
+            out.append({"kind": "batcher-sequences", "n": rng.randint(0, 11), "b": rng.randint(1, 5), "type": rng.randrange(7)})
         return out
 
     def run_extra(self, desc):
@@ -291,8 +291,16 @@ class Prop(SeqProp):
             from windpyutils import generic as g
             n, b = desc["n"], desc["b"]
             data = ["abcdefghijk"[:n], bytes(range(65, 65 + n)), range(10, 10 + n), list(range(n)),
-                    ("abcdefghijk"[:n], range(n))][desc["type"]]
+                    ("abcdefghijk"[:n], range(n)),
+                    # a tuple with a single member, a tuple with three
+                    (list(range(n)),), (list(range(n)), "abcdefghijk"[:n], [None] * n)][desc["type"]]
             try:
+                if isinstance(data, tuple):
+                    # the iterator flavour on the same tuple (its members consumed as iterables): batches of lists in lock-step
+                    it_got = [tuple(list(m) for m in bat) for bat in g.BatcherIter(tuple(iter(m) for m in data), b)]
+                    it_want = [tuple(list(m[j * b:(j + 1) * b]) for m in data) for j in range(-(-n // b))]
+                    if it_got != it_want:
+                        return f"BatcherIter over a tuple of {len(data)} iterables of {n} items, batch size {b}: {it_got}, expected {it_want}"
                 bt = g.Batcher(data, b)
                 nb = -(-n // b)
                 if isinstance(data, tuple):
